@@ -332,6 +332,33 @@ fn check(case: &Case) -> Verdict {
     let area = soup.area();
     let below = proj.iter().all(|p| *p < d);
     let above = proj.iter().all(|p| *p > d);
+    // the same plane with its normal inverted (Plane3::inverted_normal) is the same set of points: the same section, and
+    // the two sides exchanged
+    {
+        let inv = plane.inverted_normal();
+        let icurves = match section_of(&mesh, &inv, curve_tol) {
+            Ok(c) => c,
+            Err(mut f) => {
+                f.sig = format!("{}/inverted_plane", f.sig);
+                return Verdict::Fail(f);
+            }
+        };
+        for c in &icurves {
+            for p in c.points() {
+                let sd = plane.signed_distance_to_point(p);
+                ensure!(sd.abs() <= 1e-6 + 1e-8 * scale, "C13/section/inverted_plane/on_plane", "a vertex of the section by the inverted plane is {sd:e} from the plane");
+            }
+        }
+        let (t0, t1): (f64, f64) = (curves.iter().map(|c| c.length()).sum(), icurves.iter().map(|c| c.length()).sum());
+        ensure!((t0 - t1).abs() <= 1e-8 * scale * (1.0 + soup.f.len() as f64 * 1e-3) + 4.0 * curve_tol * (curves.len() + icurves.len()) as f64, "C13/section/inverted_plane/length", "total section length {t0:e} with the plane, {t1:e} with its inverted copy");
+        match guarded(|| mesh.split(&inv)) {
+            Err(m) => return Verdict::fail("C13/split/inverted_plane/panic", m),
+            Ok(SplitResult::Negative) => ensure!(above, "C13/split/inverted_plane/side", "split by the inverted plane reports the mesh wholly on its negative side, but not every vertex is on the positive side of the plane"),
+            Ok(SplitResult::Positive) => ensure!(below, "C13/split/inverted_plane/side", "split by the inverted plane reports the mesh wholly on its positive side, but not every vertex is on the negative side of the plane"),
+            Ok(SplitResult::Pair(_, _)) => ensure!(!below && !above, "C13/split/inverted_plane/side", "split by the inverted plane produced two meshes although all vertices are on one side"),
+        }
+        cx.label("inverted_plane");
+    }
     match guarded(|| mesh.split(&plane)) {
         Err(m) => return Verdict::fail("C13/split/panic", m),
         Ok(SplitResult::Negative) => {
